@@ -20,7 +20,13 @@
     character the code searches for or compares with is ASCII, every offset
     it adds is relative to an ASCII character, so the same substrings are
     cut.  The two places where Python drops "the last character" with a
-    [-1] slice bound use [drop_last_cp] (drops one code point).
+    [-1] slice bound use [drop_last_cp] (drops one code point).  One
+    expression of the code adds a length measured in one string to an index
+    found in another one (typed branch of
+    [_look_for_last_index_of_literal_token]: a length in [target_substring]
+    plus [target_str.find]); there the length is counted in code points and
+    re-measured in bytes from the found position ([cp_advance]), which is
+    what Python's character arithmetic does.
     Modelled, not verified: [str.isnumeric()] is true exactly for the ASCII
     digits (non-ASCII numeric code points such as U+00B2 are outside the
     model); [str.strip()] strips ASCII white space only; with
@@ -108,6 +114,22 @@ Definition index_of_token_end (s : str) : Z :=
   | None => if suffixb nt_statement_end s then len s - 1 else len s
   end.
 
+(** the same, counted in code points *)
+Definition index_of_token_end_cp (s : str) : Z :=
+  match first_blank s with
+  | Some n => pylen (firstn n s)
+  | None => if suffixb nt_statement_end s then pylen s - 1 else pylen s
+  end.
+
+(** number of bytes taken by the first [n] code points of [s] ([s] begins at a
+    code-point boundary); one more per code point that [s] does not have *)
+Fixpoint cp_advance (s : str) (n : nat) : nat :=
+  match s with
+  | [] => n
+  | c :: s' => if is_cont c then S (cp_advance s' n)
+               else match n with O => O | S n' => S (cp_advance s' n') end
+  end.
+
 (** ** the four [_look_for_last_index_of_*] methods *)
 Definition last_index_uri (t : str) (i : Z) : Z :=
   let sub := slice_from t i in
@@ -149,7 +171,10 @@ Definition last_index_literal (t : str) (i : Z) : res Z :=
   else if negb (contains nt_lit_type_marker sub) then
     bind (quotes_loop (2 * List.length sub + 8) sub 1) (fun q => Ok (q + (len t - len sub)))
   else
-    Ok (index_of_token_end (slice_from sub (find nt_lit_type_marker sub)) - 1 + find nt_lit_type_marker t).
+    (* Python: _index_of_token_end(sub[sub.find("^^"):]) - 1 + target_str.find("^^"), in characters *)
+    let n := index_of_token_end_cp (slice_from sub (find nt_lit_type_marker sub)) in
+    let fb := find nt_lit_type_marker t in
+    Ok (fb + Z.of_nat (cp_advance (slice_from t fb) (Z.to_nat n)) - 1).
 
 (** ** [_look_for_tokens]; [acc] holds the tokens found so far, latest first *)
 Fixpoint look_loop (fuel : nat) (line : str) (i : Z) (acc : list str) : res (list str) :=
